@@ -654,7 +654,7 @@ func rdocBatch(cases []Case) []string {
 func init() {
 	register(&Property{ID: "C16", Streams: []*Stream{
 		{
-			Name: "packages", Quick: 240, Thorough: 2400, New: func() Case { return &rdocCase{} },
+			Name: "packages", Quick: 480, Thorough: 3600, New: func() Case { return &rdocCase{} },
 			Gen:      func(r *Rng, i int) Case { return genRdoc(r) },
 			BatchRun: rdocBatch, ShrinkBudget: 25, MaxShrinks: 6,
 			Rule: "packages of 2–6 types: exported and unexported structs (plain, generic) with exported / unexported / inline-struct / empty-struct fields and fields embedded by value and by pointer, defined int / map / slice / func / string types, interfaces; doc comments from a menu with the name as first word, as a prefix of a longer word, alone, quotes, backslashes, %d, %v, @name, backquotes, non-ASCII, blank lines and tag lines; the real generator (120 packages per Execute), go build, and one probe program per batch calling RuntimeDoc on every exported non-interface type for (), F0…F2, f0, T0, T1 and an unknown name; compared with the model query by query; oracle: the doc text the harness wrote",
